@@ -13,7 +13,7 @@ RULE = (
     "place with the verifier's CBOR reader; decode direction: the verifier encodes the envelope with the registered code, the "
     "tool parses it and the shown description must contain that name and no other name of the key space; every name is also "
     "placed in every other closed key space, where create must raise; tags 107/18/96 are read from created bytes and envelopes "
-    "with an off-by-one tag are offered to parse. Every pair is non-trivial; distinct by (direction, key space, name[, foreign space])."
+    "with an off-by-one tag are offered to parse; authentication blocks re-tagged 17/19/98/96/107/24/untagged inside a two-block wrapper must be refused or shown as something other than COSE_Sign1 with their content still present. Every pair is non-trivial; distinct by (direction, key space, name[, foreign space])."
 )
 ASSUMPTIONS = [
     "vf/registry.py is a correct transcription of the IANA SUIT/COSE/CWT registries and drafts; five tool-specific codes are marked",
@@ -287,14 +287,66 @@ def check_tags(acc):
                 continue
             if names in strings_in(shown):
                 raise Violation(f"tag {tag + delta} is shown as {names}", "refusal or a different rendering")
+    # an authentication block that does not carry tag 18 is not a COSE_Sign1: parse refuses the envelope or shows the item as something else,
+    # but its content does not vanish from the description (two blocks with recognisable signatures; all, or only the second, re-tagged)
+    sigs = ["c0ffee01" * 8, "c0ffee02" * 8]
+    d2 = env(man={}, auth={f"SuitAuthentication{i}": {"CoseSign1Tagged": {"protected": {}, "unprotected": {}, "payload": None, "signature": sg}} for i, sg in enumerate(sigs)})
+    ref2 = refenc.envelope(copy.deepcopy(d2))
+    good = sut.parse_mem(ref2)
+    for sg in sigs:
+        if not any("CoseSign1Tagged" in pth for pth in _paths_to(good, sg)):
+            raise Violation(f"tag 18 block with signature {sg[:8]}.. is not shown as CoseSign1Tagged", "CoseSign1Tagged rendering")
+    for new_tag in (17, 19, 98, 96, 107, 24, None):
+        for which in ("all", "second"):
+            bad = _retag(ref2, 18, new_tag, only_nth=1 if which == "second" else None)
+            acc.case(nt_key=("tags", "auth-block", new_tag, which), classes=["tags", "tags-in-context"])
+            try:
+                shown = sut.parse_mem(bad)
+            except Exception:
+                continue
+            for i, sg in enumerate(sigs):
+                if which == "second" and i == 0:
+                    continue
+                paths = _paths_to(shown, sg)
+                if any("CoseSign1Tagged" in pth for pth in paths):
+                    raise Violation(f"authentication block {i} with {'tag ' + str(new_tag) if new_tag is not None else 'no tag'} is shown as CoseSign1Tagged", "refusal or a different rendering",
+                                    bucket="tag-ignored")
+                if not paths:
+                    raise Violation(f"envelope whose authentication block {i} carries {'tag ' + str(new_tag) if new_tag is not None else 'no tag'} instead of 18 parses, and the block "
+                                    f"(signature {sg[:8]}..) is absent from the description: {str(shown)[:200]}", "refusal, or the item shown as something other than COSE_Sign1", bucket="untagged-block-vanishes")
 
 
-def _retag(data, old, new):
-    """Rebuild the envelope with every tag `old` replaced by `new` (inside bstr-wrapped layers too)."""
+def _paths_to(x, needle, path=()):
+    """Key paths of every string (or bytes) of a rendered description that contains the hex string `needle`."""
+    out = []
+    if isinstance(x, dict):
+        for k, v in x.items():
+            out += _paths_to(v, needle, path + (str(k),))
+    elif isinstance(x, (list, tuple)):
+        for i, v in enumerate(x):
+            out += _paths_to(v, needle, path + (str(i),))
+    elif isinstance(x, bytes):
+        if needle in x.hex():
+            out.append(path)
+    elif isinstance(x, str):
+        if needle in x.lower():
+            out.append(path)
+    return out
+
+
+def _retag(data, old, new, only_nth=None):
+    """Rebuild the envelope with every tag `old` (or only its n-th occurrence in document order) replaced by `new`
+    (inside bstr-wrapped layers too); new=None removes the tag."""
+    seen = [0]
 
     def rec(x):
         if isinstance(x, cb.Tag):
-            return cb.Tag(new if x.tag == old else x.tag, rec(x.value))
+            if x.tag == old:
+                k = seen[0]
+                seen[0] += 1
+                if only_nth is None or k == only_nth:
+                    return rec(x.value) if new is None else cb.Tag(new, rec(x.value))
+            return cb.Tag(x.tag, rec(x.value))
         if isinstance(x, cb.Pairs):
             return cb.Pairs((k, rec(v)) for k, v in x)
         if isinstance(x, list):
